@@ -14,10 +14,25 @@ def main():
     ap.add_argument("--only", help="substring filter on harness refs (debugging)")
     ap.add_argument("--task", help="run one harness on one JSON shape in-process (debugging)")
     ap.add_argument("--shape")
+    ap.add_argument("--update-baseline", action="store_true", help="record obligation counts of the evidence files as the baseline")
     args = ap.parse_args()
     seed = int(os.environ.get("VERIF_SEED", "0"))
     from engine import runner
 
+    if args.update_baseline:
+        import glob
+
+        path = os.path.join(runner.VERIF, "baseline_obligations.json")
+        base = json.load(open(path)) if os.path.exists(path) else {}
+        for f in sorted(glob.glob(os.path.join(runner.VERIF, "evidence", "*.json"))):
+            ev = json.load(open(f))
+            cov = ev["coverage"]
+            if cov.get("failed") or cov.get("undecided"):
+                continue
+            base.setdefault(ev["property_id"], {})[ev["tier"]] = {"obligations": cov["obligations"], "tasks": cov["shapes_run"]}
+        json.dump(base, open(path, "w"), indent=1, sort_keys=True)
+        print("baseline updated for", sorted(base))
+        return 0
     if args.replay:
         doc = json.load(open(args.replay))
         cex = (doc.get("verifier_output") or {}).get("cex") or {}
@@ -46,6 +61,7 @@ def main():
     check = registry.CHECKS[args.prop]
     if args.only:
         check.harnesses = [h for h in check.harnesses if args.only in h]
+        check.filtered = True
     extra = None
     status, ev, names = runner.run_check(check, args.tier, seed, jobs=args.jobs)
     return status
